@@ -81,7 +81,7 @@ func (b *beh) String() string {
 	if b.useModule {
 		parts = append(parts, "calls module()")
 	}
-	parts = append(parts, []string{"returns nothing", "returns a table", "returns a string", "returns a number", "returns true"}[b.ret])
+	parts = append(parts, []string{"returns nothing", "returns a table", "returns a string", "returns a number", "returns true", "returns a userdata"}[b.ret])
 	if b.raise {
 		parts = append(parts, "raises")
 	}
@@ -121,6 +121,8 @@ func body(name string, b *beh) string {
 		fmt.Fprintf(&sb, "return %d\n", 1000+b.ver)
 	case 4:
 		sb.WriteString("return true\n")
+	case 5:
+		fmt.Fprintf(&sb, "return UD[%q]\n", name)
 	}
 	return sb.String()
 }
@@ -128,6 +130,7 @@ func body(name string, b *beh) string {
 const prelude = `
 LOG = {}
 CNT = 0
+UD = {a = newproxy(), b = newproxy(), c = newproxy(), ["a.b"] = newproxy()}
 function mk(n, k) CNT = CNT + 1; return {id = k .. ":" .. n .. "#" .. CNT} end
 function desc(v)
   local ty = type(v)
@@ -136,6 +139,7 @@ function desc(v)
   if ty == "number" then return "D:" .. v end
   if ty == "boolean" then return v and "true" or "false" end
   if ty == "nil" then return "nil" end
+  if ty == "userdata" then for k, u in pairs(UD) do if rawequal(u, v) then return "U:" .. k end end end
   return ty
 end
 function req(n)
@@ -252,6 +256,8 @@ func (m *modelRun) require(name string) (ok bool, vals []string, errK string) {
 		ret = fmt.Sprintf("D:%d", 1000+b.ver)
 	case 4:
 		ret = "true"
+	case 5:
+		ret = "U:" + name
 	}
 	if b.goSide {
 		*m.cnt++
@@ -298,7 +304,7 @@ func (e *Engine) Run(t *core.Tape, cfg *core.Config, st *core.Stats) (viol *core
 	if err := os.WriteFile(plain, []byte("x"), 0o600); err != nil {
 		panic(err)
 	}
-	pathVal := filepath.Join(dir, "?.lua") + ";" + filepath.Join(dir, "?", "init.lua") + ";" + filepath.Join(plain, "?.lua")
+	pathVal := filepath.Join(dir, "?.lua") + ";" + filepath.Join(dir, "?", "init.lua") + ";" + filepath.Join(plain, "?.lua") + ";" // and an empty template at the end
 	L.SetField(L.GetGlobal("package"), "path", lua.LString(pathVal))
 	ms := &mstate{loaded: map[string]string{}, poisoned: map[string]bool{}, files: map[string]*beh{}, isDir: map[string]bool{}, preload: map[string]*beh{}, modTab: map[string]string{}}
 	cnt := 0
@@ -334,7 +340,7 @@ func (e *Engine) Run(t *core.Tape, cfg *core.Config, st *core.Stats) (viol *core
 	drawBeh := func(name string, reduced bool) *beh {
 		ver++
 		b := &beh{ver: ver}
-		b.ret = t.Choose(5)
+		b.ret = t.Choose(6)
 		b.assign = t.Choose(4) == 0
 		b.raise = t.Choose(6) == 0
 		if !reduced {
@@ -379,7 +385,7 @@ func (e *Engine) Run(t *core.Tape, cfg *core.Config, st *core.Stats) (viol *core
 	for i := 0; i < nops; i++ {
 		name := names[t.Choose(nn)]
 		fpath := filepath.Join(dir, fileKey(name)+".lua")
-		switch k := t.Weighted([]int{8, 5, 1, 1, 3, 2, 2, 1, 1}); k {
+		switch k := t.Weighted([]int{8, 5, 1, 1, 3, 2, 2, 1, 1, 1}); k {
 		case 0: // require
 			if !reduced && t.Choose(6) == 0 {
 				// require with an error injected at an arbitrary instruction while loaders run
@@ -422,7 +428,7 @@ func (e *Engine) Run(t *core.Tape, cfg *core.Config, st *core.Stats) (viol *core
 					case d == "userdata":
 						ms.loaded[n] = ""
 						ms.poisoned[n] = true
-					case strings.HasPrefix(d, "T:") || strings.HasPrefix(d, "S:str:") || strings.HasPrefix(d, "D:1") || d == "true":
+					case strings.HasPrefix(d, "T:") || strings.HasPrefix(d, "S:str:") || strings.HasPrefix(d, "D:1") || strings.HasPrefix(d, "U:") || d == "true":
 						ms.loaded[n] = d
 						if faultFired {
 							ms.poisoned[n] = false
@@ -654,6 +660,39 @@ func (e *Engine) Run(t *core.Tape, cfg *core.Config, st *core.Stats) (viol *core
 				return fail("host-module", "a module registered by the host must be reachable through require and through its global as the same object; got ok:rawequal:type = %s", res)
 			}
 			st.Probe("host_registered_module")
+		case 9: // a storm of failing loads: the same broken module is unloaded and required again many times
+			if reduced {
+				continue
+			}
+			n := []int{20, 60, 150, 199, 200, 201, 260, 400}[t.Choose(8)]
+			ver++
+			b := &beh{ver: ver, raise: true}
+			if t.Bool() || ms.preload[name] != nil {
+				b.preload = true
+				if _, v := runLua(fmt.Sprintf("package.preload[%q] = function(...)\n%send\nreturn \"\"", name, body(name, b))); v != nil {
+					return v
+				}
+				ms.preload[name] = b
+			} else {
+				os.RemoveAll(fpath)
+				os.MkdirAll(filepath.Dir(fpath), 0o755)
+				if err := os.WriteFile(fpath, []byte("do\n"+body(name, b)+"end\n"), 0o600); err != nil {
+					panic(err)
+				}
+				ms.files[name] = b
+				ms.isDir[name] = false
+			}
+			res, v := runLua(fmt.Sprintf("local fails = 0; for i = 1, %d do package.loaded[%q] = nil; local ok = pcall(require, %q); if not ok then fails = fails + 1 end end; LOG = {}; package.loaded[%q] = nil; return tostring(fails)", n, name, name, name))
+			if v != nil {
+				return v
+			}
+			log = append(log, fmt.Sprintf("storm: %d x (package.loaded[%q] = nil; pcall(require, %q)) over %s -> %s failures; package.loaded[%q] = nil", n, name, name, b, res, name))
+			if res != fmt.Sprint(n) {
+				return fail("wrong-result", "a loader that raises was required %d times (unloaded before each), %s requires failed", n, res)
+			}
+			ms.loaded[name] = ""
+			ms.poisoned[name] = false
+			st.Probe("failure_storm")
 		case 8: // a host module opened lazily: the PreloadModule loader registers the module when it is first required
 			if reduced {
 				continue
